@@ -4,7 +4,7 @@
    with Path.list_of_destinations_from_last_segment and Path.make_copy_with_jump_to,
    variant = ScoreVariant.create_variant_part, id_suffix = update_note_ids_after_unfolding,
    variant_qd = the quarter durations create_variant_part sets. *)
-From PV Require Import Lib.Base Model.C09 Model.C09_api Proofs.C09 Proofs.C09_simple Proofs.C09_segs Proofs.C09_variant Proofs.C09_clip Proofs.C09_qd Proofs.C09_nav Proofs.C09_api Proofs.C09_reps Model.C09_hist Proofs.C09_hist.
+From PV Require Import Lib.Base Model.C09 Model.C09_api Proofs.C09 Proofs.C09_simple Proofs.C09_segs Proofs.C09_variant Proofs.C09_clip Proofs.C09_qd Proofs.C09_nav Proofs.C09_api Proofs.C09_reps Model.C09_hist Proofs.C09_hist Model.C09_heap Proofs.C09_heap.
 From Coq Require Import ZArith List Bool.
 Import ListNotations.
 #[local] Open Scope Z_scope.
@@ -383,3 +383,31 @@ Theorem tocoda_after_repeated_last_bracket_refuted :
             false true true = Some [[0; 1; 0; 2; 0; 2; 3; 4; 5]].
 Proof. exact tocoda_after_repeated_last_bracket_refuted_lemma. Qed.
 Print Assumptions tocoda_after_repeated_last_bracket_refuted.
+
+(* ---- the returned part shares no list with the argument or with its other copies (Model/C09_heap.v:
+   copy(o) + replace_refs over heap cells; third hardening round) ---- *)
+
+(* whatever is appended to a list held by a copy (any visit, any object, any attribute) of an unfolding, every
+   list that existed before the unfolding -- the original's, an earlier unfolded part's -- reads as before *)
+Theorem edit_of_copy_keeps_original : forall stride k vs st st' cs a x b,
+  visits false stride k st vs = (st', cs) -> In a (flat_map addrs cs) -> (b < length st)%nat ->
+  cell (append_at st' a x) b = cell st b.
+Proof. exact edit_of_copy_keeps_original_lemma. Qed.
+Print Assumptions edit_of_copy_keeps_original.
+
+(* the copies of different visits, objects and attributes hold pairwise different lists *)
+Theorem visits_share_nothing : forall stride vs k st st' cs,
+  visits false stride k st vs = (st', cs) -> NoDup (flat_map addrs cs).
+Proof. exact visits_share_nothing_lemma. Qed.
+Print Assumptions visits_share_nothing.
+
+(* not vacuous: replace_refs leaving an empty list alone (|: n :|, n without slurs) keeps the original's two lists in
+   both visits; a slur appended to the first visit's copy shows in the original; the real one allocates 2..5 *)
+Theorem skip_empty_variant_refuted :
+  let '(st', cs) := visits true 100 1 [[]; []] [[ex_note]; [ex_note]] in
+  flat_map addrs cs = [0; 1; 0; 1]%nat /\
+  cell (append_at st' 0 77) 0 = [77] /\ cell [[]; []] 0 = [] /\
+  let '(st2, cs2) := visits false 100 1 [[]; []] [[ex_note]; [ex_note]] in
+  flat_map addrs cs2 = [2; 3; 4; 5]%nat /\ cell (append_at st2 2 77) 0 = [] /\ cell (append_at st2 2 77) 4 = [].
+Proof. exact skip_empty_variant_refuted_lemma. Qed.
+Print Assumptions skip_empty_variant_refuted.
